@@ -1,6 +1,9 @@
 import DaeVerif.C01.Model
 import DaeVerif.C01.Position
 import DaeVerif.C01.Encoding
+import DaeVerif.C01.Outbound
+import DaeVerif.C01.Text
+import DaeVerif.C01.LpmIndex
 import DaeVerif.Compose.Model
 import DaeVerif.Common.Proto
 /-!
@@ -10,6 +13,15 @@ are evaluated against it.
     prog <fbOut> <fbMark> <fbMust> <nRules> { R (F <out> <mark> <must> | M) <nConds> { C <fn> <neg> <nGroups> { G <nVals> val* } } }
     pkt <src32hex> <dst32hex> <sport> <dport> <ipver> <l4> <pname32hex> <dscp> <mac32hex> <dombits|->
     route <is4> <dst32hex>
+
+Values may be given as the TEXT the user wrote (`TP<hex>` port, `TD<hex>` DSCP, `TM<hex>` MAC, `TL<hex>`
+l4proto literal, `TV<hex>` ipversion literal; `T?-` = the empty string): the model parses them
+(`Text.lean`); an unparsable one makes the program a builder error.  A trailing section
+`O <n> { <namehex> <np> { <keyhex|-> <valhex|-> } }` gives the outbounds of the rules and the fallback as
+written (`Outbound.lean`), resolved through the group table of the last `outs <n> <namehex>*` line.
+Other lines: `ob R|F <namehex> <np> {k v}` (one outbound, patched and parsed), `lpmsets` (the prefix
+set every LPM match set reads through its index), `swap` (exchange the current and the previous
+program: two generations alive at once).
 -/
 open DaeVerif DaeVerif.Proto DaeVerif.RuleScan DaeVerif.C12 DaeVerif.C01 DaeVerif.Compose
 
@@ -47,16 +59,52 @@ def pPrefix : P Prefix := fun ts => do
     | _ => none
   | _ => none
 
+/-- bytes of a text token `T?<hex>` (`T?-` = empty) -/
+def textOf (tok : String) : Option (List Nat) :=
+  let h := String.ofList (tok.toList.drop 2)
+  if h = "-" then some [] else hexToBytes? h
+
+def isT (k : Char) (tok : String) : Bool := tok.toList.take 2 == ['T', k]
+
+/-- a value given as text that the real parser functions refuse (the whole program is then a builder
+error) -/
+def invalidTok (tok : String) : Bool :=
+  if isT 'P' tok then (match textOf tok with | some b => (parsePortRange b).isNone | none => true)
+  else if isT 'D' tok then (match textOf tok with | some b => (parseDscp b).isNone | none => true)
+  else if isT 'M' tok then (match textOf tok with | some b => (parseMac b).isNone | none => true)
+  else false
+
 def pRange : P (Nat × Nat) := fun ts => do
   let (tok, ts) ← pTok ts
+  if isT 'P' tok then
+    pure (((textOf tok).bind parsePortRange).getD (1, 0), ts)
+  else
   match tok.splitOn "-" with
   | [a, b] => let x ← a.toNat?; let y ← b.toNat?; pure ((x, y), ts)
   | _ => none
 
 def pHexNat : P Nat := fun ts => do
   let (tok, ts) ← pTok ts
+  if isT 'M' tok then
+    pure (((textOf tok).bind parseMac).getD 0, ts)
+  else
   let v ← hexToNat? tok
   pure (v, ts)
+
+def pDscp : P Nat := fun ts => do
+  let (tok, ts) ← pTok ts
+  if isT 'D' tok then pure (((textOf tok).bind parseDscp).getD 0, ts)
+  else (tok.toNat?).map (·, ts)
+
+def pL4 : P Nat := fun ts => do
+  let (tok, ts) ← pTok ts
+  if isT 'L' tok then pure (((textOf tok).map l4Literal).getD 0, ts)
+  else (tok.toNat?).map (·, ts)
+
+def pIpv : P Nat := fun ts => do
+  let (tok, ts) ← pTok ts
+  if isT 'V' tok then pure (((textOf tok).map ipvLiteral).getD 0, ts)
+  else (tok.toNat?).map (·, ts)
 
 def pBytes : P (List Nat) := fun ts => do
   let (tok, ts) ← pTok ts
@@ -85,11 +133,11 @@ def pCond : P SCond := fun ts => do
     | "sip" => let (g, ts) ← pGroups pPrefix ng ts; mk (.ip false g) ts
     | "dport" => let (g, ts) ← pGroups pRange ng ts; mk (.port true g) ts
     | "sport" => let (g, ts) ← pGroups pRange ng ts; mk (.port false g) ts
-    | "l4proto" => let (g, ts) ← pGroups pNat ng ts; mk (.l4proto g) ts
-    | "ipversion" => let (g, ts) ← pGroups pNat ng ts; mk (.ipversion g) ts
+    | "l4proto" => let (g, ts) ← pGroups pL4 ng ts; mk (.l4proto g) ts
+    | "ipversion" => let (g, ts) ← pGroups pIpv ng ts; mk (.ipversion g) ts
     | "mac" => let (g, ts) ← pGroups pHexNat ng ts; mk (.mac g) ts
     | "pname" => let (g, ts) ← pGroups pBytes ng ts; mk (.pname g) ts
-    | "dscp" => let (g, ts) ← pGroups pNat ng ts; mk (.dscp g) ts
+    | "dscp" => let (g, ts) ← pGroups pDscp ng ts; mk (.dscp g) ts
     | "domain" =>
       -- each key group: G 1 <oracle index>
       let (g, ts) ← pGroups pNat ng ts
@@ -140,7 +188,7 @@ def pProg : P (List SRule × Out) := fun ts => do
   let (rs, ts) ← pMany pRule n ts
   pure ((rs, ⟨o, m, mu == 1⟩), ts)
 
-def pPkt (ts : List String) : Option Pkt := do
+def pPkt (ts : List String) : Option C01.Pkt := do
   match ts with
   | [src, dst, sp, dp, ipv, l4, pn, dscp, mac, dom] =>
     let src ← hexToNat? src
@@ -163,8 +211,25 @@ def pRoute (ts : List String) : Option RouteArgs := do
     pure ⟨s4 == "1", src, d4 == "1", dst, ← sp.toNat?, ← dp.toNat?, ← l4.toNat?, pn, ← dscp.toNat?, mac, dom⟩
   | _ => none
 
+/-- `<namehex|-> <np> { <keyhex|-> <valhex|-> }` -/
+def pOFunc : P OFunc := fun ts => do
+  let (nm, ts) ← pBytes ts
+  let (np, ts) ← pNat ts
+  let (ps, ts) ← pMany (fun ts => do
+    let (k, ts) ← pBytes ts
+    let (v, ts) ← pBytes ts
+    pure ((k, v), ts)) np ts
+  pure (⟨nm, ps⟩, ts)
+
+def pOSection : P (List OFunc) := fun ts =>
+  match ts with
+  | "O" :: ts => do
+    let (n, ts) ← pNat ts
+    pMany pOFunc n ts
+  | _ => some ([], ts)
+
 /-- diagnostics only (evidence: which rule decided); not part of any theorem -/
-def hitIndex (p : Pkt) : List SRule → Nat → Option Nat
+def hitIndex (p : C01.Pkt) : List SRule → Nat → Option Nat
   | [], _ => none
   | r :: rs, i =>
     if sruleHolds p r then
@@ -173,15 +238,23 @@ def hitIndex (p : Pkt) : List SRule → Nat → Option Nat
       | .mustRules => hitIndex p rs (i + 1)
     else hitIndex p rs (i + 1)
 
-structure St where
-  diag : Bool := false
+/-- one installed program (a generation) -/
+structure Gen where
   groups : List (C11.Kind × List C11.Pat) := []
   built : Option C11.Built := none       -- the real-matcher model, built once per program
-  prog : List (Entry MCond Out) := []
   rules : List SRule := []
   fb : Out := ⟨0, 0, false⟩
+  lb : LBuilt := ⟨[], [], [], []⟩         -- positions + LPM slots, built once per program (real FNV hash)
+  ok : Bool := false                     -- the program was accepted
+
+structure St where
+  diag : Bool := false
+  cur : Gen := {}
+  prev : Gen := {}
   /-- `consts.MaxMatchSetLen` as the harness read it from the real code (`limit N` line) -/
   limit : Nat := 1024
+  /-- the group table (`outboundName2Id`): position = id -/
+  names : List (List Nat) := []
 
 def outStr : Option Out → String
   | some o => s!"out={o.outbound} mark={o.mark} must={boolStr o.must}"
@@ -194,7 +267,7 @@ def splitName (ts : List String) : List String × Option (String × String) :=
   | rx :: nm :: "N" :: rest => (rest.reverse, some (nm, rx))
   | _ => (ts, none)
 
-def evalPkt (st : St) (p : Pkt) (nameTok : Option (String × String)) : String :=
+def evalPkt (diag : Bool) (st : Gen) (p : C01.Pkt) (nameTok : Option (String × String)) : String :=
   let real : String := match nameTok, st.built with
     | some (nm, rx), some b =>
       if nm = "-" then
@@ -209,18 +282,84 @@ def evalPkt (st : St) (p : Pkt) (nameTok : Option (String × String)) : String :
         if r == matchAt st.rules st.fb p then "" else " REAL-MATCHER-DIFFERS " ++ outStr r
       | none => " bad-name"
     | _, _ => ""
-  -- the compiled-level scan by position (as the code runs it), the byte-encoded loop and the
-  -- source-level specification are all evaluated; they are proved equal
-  -- (Props.match_by_position_is_first_match, Props.match_bytes_is_first_match); the driver prints the
+  -- the compiled-level scan by position (as the code runs it), the byte-encoded loop, the scan through
+  -- the LPM indices of the builder (real FNV hash) and the source-level specification are all
+  -- evaluated; they are proved equal (Props.match_by_position_is_first_match,
+  -- Props.match_bytes_is_first_match, Props.match_by_lpm_index_is_first_match); the driver prints the
   -- scan and flags any difference
   let a := matchAt st.rules st.fb p
   let b := firstMatchS p st.rules st.fb false
   let c := matchBytes st.rules st.fb p
-  let d := if st.diag then (match hitIndex p st.rules 0 with
+  let l := matchBuilt st.lb p
+  let d := if diag then (match hitIndex p st.rules 0 with
     | some i => s!" hit={i}/{st.rules.length}"
     | none => s!" hit=fb/{st.rules.length}") else ""
   outStr a ++ (if a == some b then "" else " SPEC-DIFFERS " ++ outStr (some b))
-    ++ (if c == a then "" else " BYTES-DIFFER " ++ outStr c) ++ real ++ d
+    ++ (if c == a then "" else " BYTES-DIFFER " ++ outStr c)
+    ++ (if l == a then "" else " LPM-DIFFERS " ++ outStr l) ++ real ++ d
+
+def sameRuleOut : RuleOut Out → RuleOut Out → Bool
+  | .mustRules, .mustRules => true
+  | .final a, .final b => a == b
+  | _, _ => false
+
+/-- the outbounds as written against the typed program: `(unresolvable, first disagreement)` -/
+def checkOuts (names : List (List Nat)) (rules : List SRule) (fb : Out) (os : List OFunc) : Bool × Option Nat :=
+  let n2i := indexOf names
+  let rec go : List SRule → List OFunc → Nat → Bool × Option Nat
+    | [], [f], i =>
+      match resolveFallback n2i f with
+      | none => (true, none)
+      | some o => (false, if o == fb then none else some i)
+    | r :: rs, f :: fs, i =>
+      match resolveRuleOut n2i f with
+      | none => (true, none)
+      | some o =>
+        let (bad, d) := go rs fs (i + 1)
+        (bad, if sameRuleOut o r.out then d else some i)
+    | _, _, i => (false, some i)
+  if os.isEmpty then (false, none) else go rules os 0
+
+def hexW (w n : Nat) : String :=
+  String.ofList ((List.range w).map fun i => nibble (n / 16 ^ (w - 1 - i) % 16))
+
+def insertPair (x : Nat × Nat) : List (Nat × Nat) → List (Nat × Nat)
+  | [] => [x]
+  | y :: ys =>
+    if x.1 < y.1 ∨ (x.1 = y.1 ∧ x.2 < y.2) then x :: y :: ys
+    else if x = y then y :: ys
+    else y :: insertPair x ys
+
+/-- the address set a slot describes, in a normal form: sorted unique `<addr as 16 bytes>/<length in the
+128-bit space>` -/
+def slotStr (ps : List Prefix) : String :=
+  -- only the network bits matter
+  let pairs := (ps.map fun p => (p.addr / 2 ^ (128 - p.len128) * 2 ^ (128 - p.len128), p.len128)).foldr insertPair []
+  ",".intercalate (pairs.map fun x => hexW 32 x.1 ++ "/" ++ toString x.2)
+
+def insertStr (x : String) : List String → List String
+  | [] => [x]
+  | y :: ys => if x < y then x :: y :: ys else y :: insertStr x ys
+
+def lpmSetsStr (lb : LBuilt) : String :=
+  let rec go : List (Entry MCond Out) → Nat → List String
+    | [], _ => []
+    | e :: es, i =>
+      let k := match e.cond with
+        | .ipSet _ => some "d"
+        | .srcIpSet _ => some "s"
+        | .macSet _ => some "m"
+        | _ => none
+      match k with
+      | some k => (k ++ ":" ++ slotStr (slotAt lb.tries (lb.idxs.getD i none))) :: go es (i + 1)
+      | none => go es (i + 1)
+  -- the optimizers may reorder the conditions of a rule: the program's sets as a sorted multiset
+  let l := (go lb.entries 0).foldr insertStr []
+  s!"n={l.length} " ++ ";".intercalate l
+
+def pobStr : Option POut → String
+  | some o => s!"name={if o.name.isEmpty then "-" else bytesToHex o.name} mark={o.mark} must={boolStr o.must}"
+  | none => "err"
 
 def step (st : St) (line : String) : St × String :=
   match words line with
@@ -228,29 +367,70 @@ def step (st : St) (line : String) : St × String :=
     match pProg ts with
     | some ((rules, fb), rest) =>
       match pDGroups rest with
-      | some (groups, []) =>
-        let prog := compileProgram rules fb
-        let P : DProgram := ⟨rules, fb, groups⟩
-        let built := match (C11.Matcher.replay st.limit (addCalls P)).build with
-          | .ok b => some b
-          | .error _ => none
-        -- the builder refuses a program of more than MaxMatchSetLen (`st.limit`) match sets, fallback entry
-        -- included; `BuildUserspace` additionally fails when the domain matcher cannot be built
-        ({ st with prog := prog, rules := rules, fb := fb, groups := groups, built := built },
-          if prog.length > st.limit then "err:build" else if built.isSome then "ok" else "err:build")
+      | some (groups, rest) =>
+        match pOSection rest with
+        | some (os, []) =>
+          let prog := compileProgram rules fb
+          let P : DProgram := ⟨rules, fb, groups⟩
+          let built := match (C11.Matcher.replay st.limit (addCalls P)).build with
+            | .ok b => some b
+            | .error _ => none
+          let (unres, differs) := checkOuts st.names rules fb os
+          let invalid := ts.any invalidTok || unres
+          -- a value or an outbound the real parser functions refuse is an error of the builder's `Lower`
+          -- step, before anything else; then the builder refuses a program of more than MaxMatchSetLen
+          -- (`st.limit`) match sets, fallback entry included; `BuildUserspace` additionally fails when the
+          -- domain matcher cannot be built
+          let lb := if invalid then ⟨[], [], [], []⟩ else buildL hashLpmSet rules fb
+          let verdict := if invalid then "err:builder"
+             else if prog.length > st.limit then "err:build" else if built.isSome then "ok" else "err:build"
+          let g : Gen := { groups := groups, built := built, rules := rules, fb := fb, lb := lb, ok := verdict == "ok" }
+          -- `prev` is the last ACCEPTED program before this one (the generation still serving traffic)
+          ({ st with cur := g, prev := if st.cur.ok then st.cur else st.prev },
+            verdict
+            ++ (match differs with
+                | some i => if invalid then "" else s!" OUTBOUND-DIFFERS {i}"
+                | none => ""))
+        | _ => (st, "bad-op")
       | _ => (st, "bad-op")
     | _ => (st, "bad-op")
   | "pkt" :: ts =>
     let (ts, nameTok) := splitName ts
     match pPkt ts with
-    | some p => (st, evalPkt st p nameTok)
+    | some p => (st, evalPkt st.diag st.cur p nameTok)
     | none => (st, "bad-op")
   | "rpkt" :: ts =>
     -- a packet given as the raw arguments of `ControlPlane.Route`: the marshalling is the model's
     let (ts, nameTok) := splitName ts
     match pRoute ts with
-    | some a => (st, evalPkt st (pktOfRoute a) nameTok)
+    | some a => (st, evalPkt st.diag st.cur (pktOfRoute a) nameTok)
     | none => (st, "bad-op")
+  | ["swap"] => ({ st with cur := st.prev, prev := st.cur }, "swapped")
+  | ["lpmsets"] => (st, lpmSetsStr st.cur.lb)
+  | "ids" :: ts =>
+    -- `NewControlPlane`'s group table for the given outbound names: `ok n=<count>` / `err`; with a trailing
+    -- `? <namehex>`: the id of that name
+    match (ts.takeWhile (· ≠ "?")).mapM (fun t => if t = "-" then some [] else hexToBytes? t) with
+    | some names =>
+      match assignIds names, ts.dropWhile (· ≠ "?") with
+      | none, _ => (st, "err")
+      | some _, [] => (st, s!"ok n={names.length}")
+      | some f, [_, q] =>
+        match hexToBytes? q with
+        | some qn => (st, s!"ok n={names.length} id=" ++ (match f qn with | some i => toString i | none => "-"))
+        | none => (st, "bad-op")
+      | _, _ => (st, "bad-op")
+    | none => (st, "bad-op")
+  | "outs" :: n :: ts =>
+    match n.toNat?, (ts.mapM fun t => if t = "-" then some [] else hexToBytes? t) with
+    | some k, some names => if names.length = k then ({ st with names := names }, s!"outs={k}") else (st, "bad-op")
+    | _, _ => (st, "bad-op")
+  | "ob" :: kind :: ts =>
+    match pOFunc ts with
+    | some (f, []) =>
+      let (a, b) := if kind = "F" then (fallbackOutbound f, fallbackMeaning f) else (ruleOutbound f, ruleMeaning f)
+      (st, pobStr a ++ (if a == b then "" else " SPEC-DIFFERS " ++ pobStr b))
+    | _ => (st, "bad-op")
   | ["limit", n] =>
     match n.toNat? with
     | some k => ({ st with limit := k }, s!"limit={k}")
